@@ -713,7 +713,7 @@ theorem stream_step (cfg : Settings) (st : State) (op : Op) (id : Nat) (h : (ste
     · cases h
     · split at h <;> cases h
   | close id' => simp [step] at h
-  | disconnect conn => simp [step] at h
+  | disconnect conn => simp only [step] at h; split at h <;> cases h
   | housekeeping => simp [step] at h
   | tick dt => simp [step] at h
 
